@@ -99,7 +99,16 @@ TDiff ==
   /\ UNCHANGED <<cids, fn>>
   /\ Judge(DiffWhy(Ev.x, Ev.y))
 
-TNext == TReset \/ TTransform \/ TGenerate \/ TUserAdd \/ TDiff
+ValidateWhy(src) ==
+  IF Ev.exit # 0 THEN <<"FRAME", "validate rejects a document that is valid, or that a command of the toolkit derived from a valid one">>
+  ELSE IF Changed # {} \/ ~Ev.userOK THEN <<"FRAME", "validate modified a file">>
+  ELSE <<>>
+TValidate ==
+  /\ IsEvent("Validate") /\ Validate(Ev.src)
+  /\ UNCHANGED <<cids, fn>>
+  /\ Judge(ValidateWhy(Ev.src))
+
+TNext == TReset \/ TTransform \/ TGenerate \/ TUserAdd \/ TDiff \/ TValidate
 TSpec == TInit0 /\ [][TNext]_tvars
 Consumed == TLCGet("stats").diameter - 1 = Len(Trace)
 =============================================================================
